@@ -670,7 +670,7 @@ def decode_bool_test(body, orig, op, flip=False, _depth=0):
             c = d[1]
             if c.path in CMP_CALLS and len(c.args) == 2:
                 out.append(("cmp", CMP_CALLS[c.path], c.args[0], c.args[1], flip))
-            elif c.path == "core::ops::bit::Not::not" and c.args:
+            elif c.path in ("core::ops::bit::Not::not", "anyhow::__private::not") and c.args:
                 out += decode_bool_test(body, orig, c.args[0], not flip, _depth + 1)
             else:
                 out.append(("call", c, flip))
